@@ -29,7 +29,7 @@ prop(
     "C05", "exploration",
     rule="one evaluation = one judged event (delivered honest message: no ban/disconnect/panic) or one convergence judgement per phase; "
          "a cell = (chain length class, last-N, peers, disturbance kind, PoW flavour, difficulty mode)",
-    sizes=tiers(16, 40, 60, 16, 1500, 600, min_evals=2000, min_cells=20),
+    sizes=tiers(16, 240, 60, 16, 1500, 600, min_evals=2000, min_cells=20),
     technique="runtime monitoring: RecNet ban/disconnect monitor + bounded-progress convergence oracle over generated honest sync histories",
     level_text="Held on N generated honest histories (variable-difficulty chains with real Eaglesong PoW or dummy PoW at 2^100..2^190 difficulty, 1-4 peers incl. lagging views, growth, restarts, shallow reorgs, joins/leaves) in which the client's own random FlyClient requests are answered by an RFC-conformant server: no ban, no unexplained disconnect, no panic, tip = heaviest announced tip within 60 scheduler rounds. Exploration, not proof: reach is the generated scenario space.",
     level_note="honest server simulator and chain generator are part of the trusted base; check point interval > last-N as in production; liveness restated as bounded progress (R=60 rounds, measured max 8)",
@@ -52,7 +52,7 @@ prop(
     "C15", "exploration",
     rule="one evaluation = one request built by the real builders (build_prove_request_content / _from_genesis / sample_blocks) or emitted by the client in a world scenario, judged clause by clause against ground truth; "
          "a cell = (builder branch, gap class relative to last-N, last-N, difficulty magnitude class, direction)",
-    sizes=tiers(16, 3000, 60, 16, 400000, 900, min_evals=20000, min_cells=30),
+    sizes=tiers(16, 24000, 60, 16, 400000, 900, min_evals=20000, min_cells=30),
     technique="runtime monitoring: ground-truth oracle over generated requests and an always-on monitor over the client's outbound GetLastStateProof messages; independent evaluation of the FlyClient sample bound",
     level_text="Every request built for generated start/last numbers (1-block gaps, gaps of last-N and last-N+1, 2^32/2^63/2^64-scale numbers), total difficulties up to 2^256-1, all last-N values, with and without a previous proof and stored last-N headers, and every request the client emits during generated sync histories: start < last, td(start) <= td(last), boundary inside [td(start), td(last)], difficulties strictly increasing inside (start, boundary), samples iff more than last-N blocks are missing, count >= the independently computed FlyClient bound (strict where the range is >= 2^64).",
     level_note="the count clause is strict only where identical draws are practically impossible; distribution quality is not judged; f64 evaluation of the bound is allowed an off-by-one",
@@ -63,7 +63,7 @@ prop(
     memcheck=3,
     rule="one evaluation = one complete paged query (all pages followed through last_cursor) compared with the list computed from an independent decoding of the raw key-value dump; "
          "a cell = (query kind, order/grouping, filter kinds, paging class, search kind exact/prefix/longer/wrong-type)",
-    sizes=tiers(16, 2400, 60, 16, 200000, 900, min_evals=10000, min_cells=40),
+    sizes=tiers(16, 12000, 60, 16, 200000, 900, min_evals=10000, min_cells=40),
     technique="runtime monitoring: RPC answers vs. an independent decoder of the RocksDB dump, plus metamorphic relations (desc = reverse(asc), grouped = group(ungrouped), capacity = sum(cells))",
     level_text="On stores filled by the real filter_block from generated chains (prefix-sharing scripts incl. empty args, same code hash with different hash types, typed/untyped cells, many cells per block) every generated query (exact / prefix / longer-args / wrong-type search keys, both orders, limits 1..100000, all filter kinds incl. empty, inverted and touching ranges) returns exactly the matching entries once in key order; desc is the reverse of asc; grouped equals the ungrouped list grouped by consecutive transaction for every page size; get_cells_capacity equals the sum over get_cells and reports the stored tip.",
     level_note="script_len_range is taken as inclusive on both ends and the transaction script filter as exact (as ckb-indexer implements them); the dump decoder is part of the trusted base",
@@ -75,7 +75,7 @@ prop(
     rule="one evaluation = one delivered message; judged are the messages labelled INVALID by construction (one mutation operator applied to the honest answer to the client's own outstanding request, "
          "stale / cross-peer / replayed answers): trusted state (prove states, LAST_STATE, LAST_N_HEADERS, stored headers) must be byte-identical before and after; "
          "a cell = (operator, section hit, peer state at delivery, outcome)",
-    sizes=tiers(16, 60, 70, 16, 4000, 900, min_evals=5000, min_cells=60),
+    sizes=tiers(16, 240, 70, 16, 4000, 900, min_evals=5000, min_cells=60),
     technique="runtime monitoring: before/after digest of trusted state around every adversarial message; adversary = structural, field-level, byte-level and self-consistent single-flaw mutations of honest answers to the client's live random requests",
     level_text="In generated sync histories (real Eaglesong PoW so that nonce rejection is observable, or dummy PoW; last-N 1..100; fresh, restarted and re-proving clients; shallow reorgs) every SendLastStateProof that differs from the honest answer to the outstanding request - header / proof item / chain root / uncles hash / extension altered, dropped, duplicated, swapped, replaced by a neighbour or by another branch, section boundaries shifted, re-generated consistent proofs with one header missing or a wrong sample, answers to earlier or other peers' requests, replays - left the trusted state byte-for-byte unchanged.",
     level_note="labels come from construction, not from re-implementing the verifier; FlyClient's probabilistic guarantee (a flaw outside the sampled set) is out of reach of a per-run oracle",
@@ -85,7 +85,7 @@ prop(
     "C12", "exploration",
     rule="one evaluation = one observed change of the stored (total difficulty, tip) pair, one restart comparison or one bounded-progress judgement after an adversarial announcement; "
          "a cell = (cause of the move, last adversarial operator) / injected operator / recovery outcome",
-    sizes=tiers(16, 60, 60, 16, 3000, 900, min_evals=1500, min_cells=12),
+    sizes=tiers(16, 360, 60, 16, 3000, 900, min_evals=1500, min_cells=12),
     technique="runtime monitoring: online invariant check at every change of LAST_STATE against ground-truth cumulative difficulty, reopen comparison, bounded-progress oracle with one deviating peer among honest ones",
     level_text="At every change of the stored tip in generated histories with honest peers plus one deviating peer (forged child announcements whose extension commits to a parent chain root with inflated / deflated / zero / 2^250 total difficulty or a wrong end number, equal-difficulty competitors, truthful self-mined children, stale announcements, restarts): the new tip is proven by some peer, strictly heavier, its stored total difficulty equals the real cumulative difficulty (for a fabricated child: proven parent's total + its own difficulty), the remembered last-N headers are its ancestors, a reopen reproduces the triple, and honest growth is followed within 60 rounds.",
     level_note="ground truth comes from the chain generator; unbounded 'cannot freeze' is restated as bounded progress",
@@ -95,7 +95,7 @@ prop(
     "C10", "exploration",
     memcheck=40,
     rule="one evaluation = one handler invocation (message or timer) wrapped in catch_unwind with overflow checks on; a cell = (message kind, peer state at delivery, generator class, outcome ok/ban/PANIC)",
-    sizes=tiers(16, 120, 60, 16, 8000, 900, min_evals=20000, min_cells=150),
+    sizes=tiers(16, 360, 60, 16, 8000, 900, min_evals=20000, min_cells=150),
     technique="runtime monitoring: seeded state-aware grammar + boundary-value mutation of live honest answers + truncation / bit-flip / random-byte fuzzing at the received() boundary, panic capture, overflow-checking build, shard exit status",
     level_text="Every generated byte string - well-formed messages of every union variant of the four protocols with numeric fields at {0,1,2,2^32-1,2^32,2^63,2^64-1,2^255,2^256-1, current+-1}, honest answers to the client's live requests with one field pushed to a boundary value and re-committed / re-mined so that the cheap gates are passed, v1 extra-field garbage, truncations, bit flips and random bytes - delivered in the peer states reached by real protocol steps (with and without scripts, fetch requests, dummy and real PoW), followed by timer ticks, returned without panic, arithmetic overflow or process death (only the documented long-fork abort is exempt).",
     level_note="coverage-blind generator (no libFuzzer offline for this dependency tree): reach is the grammar, the live-answer mutation and the coverage matrix reported in the evidence",
@@ -107,21 +107,21 @@ IDX_RULE = ("one evaluation = one compared cell / history entry of the final RPC
 
 prop(
     "C03", "exploration", rule=IDX_RULE,
-    sizes=tiers(16, 30, 70, 16, 1500, 900, min_evals=3000, min_cells=8),
+    sizes=tiers(16, 180, 70, 16, 1500, 900, min_evals=3000, min_cells=8),
     technique="runtime monitoring: reference indexer (independent UTXO/history model over the generated chain) compared with get_cells / get_transactions / get_cells_capacity after bounded-progress convergence",
     level_text="After generated sync histories (transaction graphs with same-block chains, multi-script and typed cells; 1-4 registered scripts with different start numbers; random filter batch boundaries) interleaved with fetch_transaction / fetch_header calls, partial set_scripts of new scripts, restarts and chain growth, every cell returned is live on the chain with exactly the chain's out-point, output, data, block number and tx index, every live cell and history entry in (start, tip] is returned, and get_cells_capacity equals the sum.",
     level_note="GCS false negatives are excluded by the library; convergence is bounded (250 rounds, chain keeps growing)",
 )
 prop(
     "C04", "exploration", rule=IDX_RULE,
-    sizes=tiers(16, 30, 70, 16, 1500, 900, min_evals=3000, min_cells=8),
+    sizes=tiers(16, 180, 70, 16, 1500, 900, min_evals=3000, min_cells=8),
     technique="runtime monitoring: reference indexer on the new branch + bounded-progress convergence oracle + store-unchanged monitor until the documented long-fork abort",
     level_text="After generated fork switches (fork point below / at / above last-N, arriving mid filter batch or mid download, with matched blocks pending, after restarts) the RPC answers equal the reference index of the new branch within 250 rounds of honest syncing; for forks that share no remembered header the index and stored tip stay byte-identical until the client stops with the documented long-fork panic.",
     level_note="check point interval > last-N as in production; unbounded 'never stuck' restated as bounded progress",
 )
 prop(
     "C09", "exploration", rule=IDX_RULE,
-    sizes=tiers(16, 30, 70, 16, 1500, 900, min_evals=3000, min_cells=10),
+    sizes=tiers(16, 180, 70, 16, 1500, 900, min_evals=3000, min_cells=10),
     technique="runtime monitoring: README map model for the script set, matched-block emptiness check after every set_scripts, reported-number-implies-indexed rule, reference indexer at convergence",
     level_text="For generated sequences of set_scripts (all / partial / delete, empty lists, duplicates, start numbers above and below current progress, re-adding deleted scripts) issued at random points of an ongoing sync (with matched blocks pending or partly downloaded): get_scripts equals the README model right after each call, pending matched blocks are discarded, no script reports a filtered height while a block at or below it that touches it is not indexed, and after convergence every kept script has its complete history and no phantom cell.",
     level_note="inputs whose previous output predates a script's start number cannot be attributed by design and are reported under C03",
@@ -131,7 +131,7 @@ prop(
     "C08", "fault_enumeration",
     rule="one evaluation = one (history, write boundary k) pair: the client is killed immediately before its k-th storage write (put / delete / batch commit), reopened twice, the interrupted RPC call is repeated, syncing continues and the final RPC answers are compared with the reference indexer; "
          "every k in 1..=W of every generated history is run; a cell = (write site, enclosing operation, recovery outcome)",
-    sizes=tiers(16, 2, 75, 16, 60, 1500, min_evals=300, min_cells=10),
+    sizes=tiers(16, 4, 75, 16, 60, 1500, min_evals=300, min_cells=10),
     technique="runtime fault injection at the before_write hook (process-death model: writes < k durable, write k and later never happen), restart from disk, bounded-progress recovery, reference-indexer comparison",
     level_text="For every generated sync history (first-run initialisation, set_scripts all / delete, filter batches, block download and indexing, tip updates, check point finalization, shallow fork rollback, restarts) a crash-free run is validated against the reference indexer and then every write boundary of that history is crashed: the store must reopen (twice in a row) without panic and continued syncing must reach answers equal to the reference at the final tip. set_scripts calls arrive both at rest and mid-sync (matched blocks pending). A mismatch is attributed to the crash only if the same history with a clean restart at the same act is clean; mismatches that the clean restart reproduces are counted, not judged (they belong to C04 / C05).",
     level_note="process death between two writes (batches are atomic); torn writes / fsync loss are out of scope; all scripts are registered with start number 0 so that the reference is exact; one serving peer keeps the write sequence reproducible (crash points not reached are counted, not claimed)",
@@ -143,7 +143,7 @@ prop(
     rule="one evaluation = one pause-point experiment on real threads: operation A is parked before its k-th storage write, operation B runs on another thread, A is released, and the final state "
          "(script set with numbers, filter progress, persisted and in-memory matched blocks, index digest) is compared with the two serial outcomes computed on replays of the same S0; "
          "every ordered pair of {set_scripts all / partial / delete, BlockFilters processing, SendBlock completing a batch, SendLastStateProof with a reorg section (fork rollback)} x every write boundary k of A is run; a cell = (A, B, k, B finished while A parked?, lock free at the pause?, serial order matched). Reader clause: one evaluation = one reader experiment: a thread runs one paged query (get_cells asc/desc, get_transactions asc/desc/grouped with and without filter.script, get_cells_capacity) and is parked at a read-side pause point (first / middle / last visited index entry, or right before the tip is read) while a complete writer sequence (growth indexed through the real handlers, whole-network fork switch with index rollback, or both) runs on the main thread; the query evaluated at every storage write of the writer gives the point-in-time states S_0..S_W, the released reader must return one of them and must not panic; a cell = (query, writer, park position, which state the answer equals)",
-    sizes=tiers(16, 1, 75, 16, 60, 1200, min_evals=60, min_cells=30),
+    sizes=tiers(16, 3, 75, 16, 60, 1200, min_evals=60, min_cells=30),
     technique="runtime schedule control through the before_write / at_read hooks (park / release on channels), serial-outcome comparison, point-in-time-state membership for parked readers, lock probe at the pause point, /proc thread-state deadlock detector",
     level_text="For every ordered pair of the six state-changing operations (incl. the fork rollback of commit_prove_state) and every internal write boundary of the first, started from a prepared mid-sync state (scripts registered, filter batch due, matched blocks pending with one block outstanding), the outcome equals one of the two serial outcomes and both threads finish; whether the second operation could run while the first was parked (i.e. whether the global lock was held at that boundary) is recorded per cell. The pairs are run from two prepared states: mid-sync (six operations) and fully synced (the three set_scripts commands and a fork rollback that deletes index entries and rewinds the filter progress). Randomized runs put three operations on three threads with random pause points, start and release orders and compare with the six serial orders. Readers: every paged query parked mid-scan (or between the scan and the tip read) across a full growth / fork-rollback writer sequence returned an answer equal to one of the writer's point-in-time states (on the unchanged tree always the state at the call).",
     level_note="in the mid-sync state the fork rollback has no index entries to delete (the filter progress is far below the fork point), in the synced state it has; the grace periods (40-60 ms) that let a started thread reach its pause point only decide which interleaving is explored, never a verdict; the reader experiments pause the reader only at the hooked read points (per visited entry, before the tip read) and let the whole writer sequence run there; a RocksDB iterator is itself a consistent view, so only reads that bypass the snapshot next to the iterator (tip, filter-script lookups) can be told apart - a transaction-record lookup outside the snapshot is behaviourally equivalent because TxHash records are never deleted; schedules inside one RocksDB call are not controlled",
@@ -153,7 +153,7 @@ prop(
     "C16", "exploration",
     rule="one evaluation = one status returned by fetch_header / fetch_transaction (judged as an edge of the status automaton against the previous status of the same hash, and against the missing reports of honest peers), "
          "one committed (transaction, block hash) pairing, or one bounded-progress judgement; a cell = (kind, status edge, disturbance mode) / final status class",
-    sizes=tiers(16, 40, 60, 16, 2500, 900, min_evals=3000, min_cells=20),
+    sizes=tiers(16, 60, 60, 16, 2500, 900, min_evals=3000, min_cells=20),
     technique="runtime monitoring: offline status-automaton checker over the RPC call/return trace, ground-truth lookup (transaction -> containing block), missing-report bookkeeping at the peer boundary, bounded-progress oracle",
     level_text="In generated histories (existing and non-existing headers / transactions, 1-3 proven peers, fetch ticks with real or fast timer periods, serving peer answering invalidly, not answering until the timeout, or disconnecting before the answer) every status sequence is a path added -> fetching(first_sent constant) -> fetched | not_found -> added ..., not_found appears only after a valid missing report, an existing item is fetched within 45 rounds while an honest proven peer is connected, and every committed answer names a stored header whose block contains the transaction. A quarter of the scenarios fetch a transaction of the two highest provable blocks, switch the whole network to a branch that replaces that height, store the new branch's block at the same height (fetch_header, fetch_transaction or filter-sync indexing) and judge what get_transaction / fetch_transaction then say about the first transaction (KF47).",
     level_note="'never lost' is restated as bounded progress (45 rounds; 110 for the timeout mode); a committed answer after a fork switch is accepted when it names the block that really contains the transaction (stale but truthful) or when the status is no longer committed",
@@ -163,7 +163,7 @@ prop(
     "C02", "exploration",
     rule="one evaluation = one delivered message (INVALID ones judged by a before/after dump of the index / transaction / header keyspaces) or one stored transaction / header checked against the chain at the end of a scenario; "
          "a cell = (operator, outcome)",
-    sizes=tiers(16, 40, 60, 16, 2500, 900, min_evals=3000, min_cells=15),
+    sizes=tiers(16, 320, 60, 16, 2500, 900, min_evals=3000, min_cells=15),
     technique="runtime monitoring: RocksDB keyspace dump before/after every adversarial SendBlock / SendBlocksProof / SendTransactionsProof, end-of-scenario membership check of every stored transaction and header in the generated chain",
     level_text="In generated sync histories with registered scripts and outstanding fetch requests, every adversarial answer - right header with a substituted body (output edited, transaction added / removed, body of another block, witness or extension edited), unrequested blocks, headers outside the request / forged / duplicated, found reported as missing, altered proof items, proofs against an unproven last header, forged Merkle lemmas / indices / witnesses roots, replaced transactions - leaves the Cell*, Tx*, TxHash, BlockHash and BlockNumber keyspaces unchanged, and at the end every stored transaction and header is one of the chain.",
     level_note="bodies colliding on transactions_root are out of scope (hash collision)",
@@ -173,7 +173,7 @@ prop(
     "C07", "exploration",
     rule="one evaluation = one delivered BlockFilterCheckPoints message or one refresh tick judged against the reference quorum rule evaluated on the snapshot of proven peers' vectors taken just before the tick; "
          "a cell = (message shape, honest/deviating sender, kept/banned) / (advance or not, quorum, supporters, deviators)",
-    sizes=tiers(16, 400, 60, 16, 30000, 900, min_evals=8000, min_cells=40),
+    sizes=tiers(16, 600, 60, 16, 30000, 900, min_evals=8000, min_cells=40),
     technique="runtime monitoring: online monotonicity / immutability check of the CheckPointIndex keyspace, reference quorum rule over snapshots of get_all_proved_check_points(), expected-progress rule, ban monitor",
     level_text="For generated configurations (max outbound 1..8, 1..10 proven peers, honest vectors and vectors deviating from some index on, short / overlapping / gapped / unaligned / one-off-lie messages, all orders of messages and refresh ticks, peers proved in mid-session whose vectors start behind the finalized index, peers leaving, restarts that rebuild Peers from the stored last check point) the final index never decreases, final values are never rewritten, every advance is backed by at least ceil(max_outbound/2) proven peers agreeing on every new index, fewer deviators than the quorum neither finalize a wrong value nor block agreement among at least a quorum of honest peers, and a peer contradicting the final value is banned at the tick that judges it.",
     level_note="peers are brought to the proven state with the cfg(test) helper mock_prove_state (the real handshake is exercised by C05); check point values come from the generated chain's filter hashes",
@@ -183,7 +183,7 @@ prop(
     "C11", "exploration",
     rule="one evaluation = one observed (peer state before, cause, peer state after) triple judged against the reference automaton transcribed from the plantuml diagram (DESIGN appendix B), "
          "plus the timeout rule at every refresh tick and the no-residue rule after every removal; a cell = distinct (state, cause, resulting state) triple",
-    sizes=tiers(16, 400, 60, 16, 40000, 900, min_evals=20000, min_cells=40),
+    sizes=tiers(16, 600, 60, 16, 40000, 900, min_evals=20000, min_cells=40),
     technique="runtime monitoring: offline automaton conformance over the boundary trace (events, states before/after, disconnects, virtual time), prove-state preservation check, timeout oracle in virtual time",
     level_text="For generated event sequences (connect, disconnect, refresh / fetch / idle / filter ticks, time advanced to just below and above the 60 s timeout, chain growth, single message deliveries in any order, replayed / stale / unsolicited proofs, muted peers) over 1-3 peers: every state change is an edge of the documented automaton for its cause, a proof changes the prove state only while a proof request is outstanding, a last-state update never discards a prove state, a request (last state, last state proof, and - in the busy scenarios with registered scripts, fetch_header / fetch_transaction calls and peers that withhold SendBlocksProof / SendBlock / SendTransactionsProof - blocks proof, blocks and transactions proof requests sent at different times) or last state older than the timeout leads to a disconnect at the next refresh tick and no disconnect happens without such a cause, and a removed peer leaves no entry behind.",
     level_note="the send times of GetBlocksProof / GetBlocks / GetTransactionsProof requests are observed at the network boundary (virtual time of the outbound message), their existence through the pub(crate) accessors of Peer; a request whose send was not observed is not judged",
@@ -193,7 +193,7 @@ prop(
     "C18", "exploration",
     rule="one evaluation = one send_transaction / estimate_cycles verdict compared with the reference verdict known by construction (valid base transaction, or exactly one invalidating mutation), one pending / unknown status check, one FIFO pool model comparison, or one relayed hash / transaction; "
          "a cell = (operator, verdicts) / pool fill class / relay event",
-    sizes=tiers(16, 12, 60, 16, 800, 900, min_evals=1500, min_cells=12),
+    sizes=tiers(16, 120, 60, 16, 800, 900, min_evals=1500, min_cells=12),
     technique="runtime monitoring: reference verdict by construction, FIFO-with-limit pool model, exactly-once checker per (peer id, hash) over RecNet's relay log, cycles equality across estimate / pool / relay",
     level_text="On a synced client whose chain deploys the always-success script: valid transactions (incl. chains spending outputs of pending ones, beyond the pool limit of 64) are accepted by send_transaction and estimate_cycles with the same cycles, every mutant (capacity overflow, duplicated / unknown input, unknown dep, immature since, output below occupied capacity, script code missing, duplicated dep, garbage dep group, no outputs) is rejected by both and stays unknown and unrelayed, the pool equals a FIFO-with-limit model with members reported pending, each pending hash is announced at most once per peer id, and GetRelayTransactions serves only pool members with the estimated cycles.",
     level_note="the two relay branches that need tentacle's ServiceControl (open / close protocol) are not reachable with the recording network context; script verification itself (ckb-script) is trusted",
@@ -203,7 +203,7 @@ prop(
     "C06", "exploration",
     rule="one evaluation = one tampered BlockFilters answer delivered, one advance of the filtered height, or one history entry / cell of a registered script compared with the reference index up to the block number the client reports for that script; "
          "a cell = (operator, script-active or quiet height) / (advance, label of the message that caused it)",
-    sizes=tiers(16, 10, 60, 16, 600, 900, min_evals=2000, min_cells=20),
+    sizes=tiers(16, 100, 60, 16, 600, 900, min_evals=2000, min_cells=20),
     technique="runtime monitoring: adversarial peers tamper BlockFilters answers (hash chain and check points stay honest), trick-agnostic oracle = reference indexer compared with the client's answers up to its self-reported script block numbers and at convergence",
     level_text="With 2-4 proven peers of which at least one is honest, deviating peers answer GetBlockFilters with 13 kinds of tampered batches (filter bytes, neighbour / quiet-block filter, start +-1, random / other-height / swapped block hashes, count mismatch, shorter batch, garbage tail, swapped filters, shifted batch), aimed at heights where a registered script is active, on both the cached-hash and latest-hash paths; no registered script's activity at or below its reported block number is missing from get_transactions / get_cells, and at convergence the index equals the reference.",
     level_note="deviators never reach the quorum for filter hashes / check points (C07 covers that vote); scripts are registered from block 0 before the sync so the recorded C03/C04/C09 findings cannot interfere",
